@@ -1,0 +1,23 @@
+//go:build verif
+
+package fifo
+
+import "sync/atomic"
+
+// VerifHook, when set, is called at the named schedule points of the FIFO map
+// (verification harness only; built with the "verif" tag).
+var VerifHook atomic.Pointer[func(point string)]
+
+func verifPoint(point string) {
+	if h := VerifHook.Load(); h != nil {
+		(*h)(point)
+	}
+}
+
+// VerifMapLen reports the number of per-key entries a FIFO map currently holds.
+func VerifMapLen[T comparable](m Map[T]) int {
+	a := m.(*fifoMap[T])
+	a.lock.Lock()
+	defer a.lock.Unlock()
+	return len(a.items)
+}
